@@ -699,10 +699,16 @@ def return_cases(summary):
     early-return code give the same cases)."""
     from .algebra import arms
     out = []
+    def alternatives(v):
+        """The value of a call inlined around a try statement is one of the values its body / handlers return."""
+        if v[0] == "tryret":
+            return [a for r in v[2] if r != ("raise",) for a in alternatives(r)]
+        return [v]
     for ev, ctx in walk(summary.events):
         if isinstance(ev, ir.Return) and not ctx.inl:
+          for value in alternatives(ev.value):
             # gates may also sit inside the guards (`if factor == 0` with factor = mode ? a : b): split jointly
-            for facts, tup in arms(("tuple", (ev.value,) + tuple(ctx.guards))):
+            for facts, tup in arms(("tuple", (value,) + tuple(ctx.guards))):
                 v, guards = tup[1][0], tup[1][1:]
                 allg = tuple(guards) + tuple(facts)
                 if any(ir.negate(g) in allg for g in allg):
